@@ -9,8 +9,8 @@ PKGS = {
 PROPS = {
     "C06": {
         "harnesses": [
-            {"pkg": "interpreter", "name": "VH_C06_CheckSig", "quick": {"params": {"S": 2}}, "thorough": {"params": {"S": 3}}},
-            {"pkg": "interpreter", "name": "VH_C06_MultiSig", "quick": {"params": {"S": 1, "N": 2}}, "thorough": {"params": {"S": 2, "N": 3}}},
+            {"pkg": "interpreter", "name": "VH_C06_CheckSig", "quick": {"params": {"S": 1, "ERA": 0, "HT": 1}}, "thorough": {"params": {"S": 2, "ERA": 1, "HT": 2}}},
+            {"pkg": "interpreter", "name": "VH_C06_MultiSig", "quick": {"params": {"S": 0, "N": 2, "ERA": 0, "HT": 0}}, "thorough": {"params": {"S": 1, "N": 3, "ERA": 1, "HT": 1}}},
         ],
         "assumptions": [],
     },
